@@ -4,7 +4,7 @@ import datetime
 import astral
 import astral.julian as J
 import astral.sun as sun
-from common import F, I, T, E, Case, call, wall_us, td_us
+from common import F, FS, I, T, E, Case, call, wall_us, td_us
 
 MAXORD = 3652059
 
@@ -56,15 +56,15 @@ def gen(rng, n, tier="quick"):
         if k == 0:
             st, v = call(J.julianday, d, calv)
             yield Case("julianday", "julianday_date %s %s" % (I(o), I(cal)),
-                       F(v) if st == "ok" else E(v), {"date": str(d), "calendar": cal})
+                       FS(v) if st == "ok" else E(v), {"date": str(d), "calendar": cal})
         elif k == 1:
             st, v = call(J.julianday, dt, calv)
             yield Case("julianday", "julianday_dt %s %s" % (I(wall_us(dt)), I(cal)),
-                       F(v) if st == "ok" else E(v), {"datetime": str(dt), "calendar": cal})
+                       FS(v) if st == "ok" else E(v), {"datetime": str(dt), "calendar": cal})
         elif k == 2:
             st, v = call(J.julianday_modified, dt)
             yield Case("julianday_modified", "julianday_modified %s" % I(wall_us(dt)),
-                       F(v) if st == "ok" else E(v), {"datetime": str(dt)})
+                       FS(v) if st == "ok" else E(v), {"datetime": str(dt)})
         elif k == 3:
             # inverse: feed the forward value (property C15's round trip) or a raw float
             if rng.random() < 0.7:
@@ -77,13 +77,13 @@ def gen(rng, n, tier="quick"):
         elif k == 4:
             jd = J.julianday(dt)
             yield Case("julianday_to_juliancentury", "jd_to_jc %s" % F(jd),
-                       F(J.julianday_to_juliancentury(jd)), {"jd": jd})
+                       FS(J.julianday_to_juliancentury(jd)), {"jd": jd})
         elif k == 5:
             jc = rng.uniform(-20, 80)
             yield Case("juliancentury_to_julianday", "jc_to_jd %s" % F(jc),
-                       F(J.juliancentury_to_julianday(jc)), {"jc": jc})
+                       FS(J.juliancentury_to_julianday(jc)), {"jc": jc})
         elif k == 6:
-            yield Case("julianday_2000", "jd2000_date %s" % I(o), F(J.julianday_2000(d)),
+            yield Case("julianday_2000", "jd2000_date %s" % I(o), FS(J.julianday_2000(d)),
                        {"date": str(d)})
         elif k == 7:
             fr = rng.choice([rng.random(), (h * 3600 + mi * 60 + s) / 86400.0, 0.0,
@@ -101,12 +101,12 @@ def gen(rng, n, tier="quick"):
         elif k == 9:
             t = datetime.time(h, mi, s, us)
             yield Case("time_to_hours", "time_to_hours %s %s %s %s" % (I(h), I(mi), I(s), I(us)),
-                       F(astral.time_to_hours(t)), {"time": str(t)})
+                       FS(astral.time_to_hours(t)), {"time": str(t)})
         elif k == 10:
             t = datetime.time(h, mi, s, us)
             yield Case("time_to_seconds",
                        "time_to_seconds %s %s %s %s" % (I(h), I(mi), I(s), I(us)),
-                       F(astral.time_to_seconds(t)), {"time": str(t)})
+                       FS(astral.time_to_seconds(t)), {"time": str(t)})
         else:
             mv = rng.choice([rng.uniform(0, 1440), rng.uniform(-1440, 2880),
                              rng.uniform(-1e4, 1e4), 720.0, 1440.0, 0.0, -0.5])
